@@ -265,7 +265,7 @@ class C17(F.Check):
         jobs = []
         for p in range(len(probe_scripts())):
             jobs.append({'cfg': {'depth': d, 'probe': p, 'max_dev': 2 if tier == 'thorough' else 1, 'fail': None}})
-            jobs.append({'cfg': {'depth': d - 1, 'probe': p, 'max_dev': 1, 'fail': None, 'late_finalise': True}})
+            jobs.append({'cfg': {'depth': d - 1, 'probe': p, 'max_dev': 2, 'fail': None, 'late_finalise': True}})
             for fail in ('refused', 'resolve'):
                 jobs.append({'cfg': {'depth': 1, 'probe': p, 'max_dev': 1, 'fail': fail}})
         return jobs
